@@ -113,7 +113,7 @@ func (c *Ctx) frameEmitter() (emit *ssa.Function, respIdx int, why string) {
 	resultNil := func(b *ssa.BasicBlock) (isNil, known bool) {
 		for _, fct := range an.BranchFacts(b) {
 			cond, neg := an.Not(fct.Cond)
-			if x, trueMeansNil, ok := an.NilCheck(cond); ok && an.Strip(x) == ssa.Value(call) {
+			if x, trueMeansNil, ok := an.NilCheck(cond); ok && isErrOfCall(x, call) {
 				return (fct.True != neg) == trueMeansNil, true
 			}
 		}
@@ -130,7 +130,7 @@ func (c *Ctx) frameEmitter() (emit *ssa.Function, respIdx int, why string) {
 		if withoutCall && isNilRet {
 			return write, 1, "Write can return nil without calling " + fname(h) + " at " + c.pos(ret)
 		}
-		if !afterCall || an.Strip(res[0]) == ssa.Value(call) {
+		if !afterCall || isErrOfCall(res[0], call) {
 			continue
 		}
 		isNil, known := resultNil(ret.Block())
@@ -139,6 +139,17 @@ func (c *Ctx) frameEmitter() (emit *ssa.Function, respIdx int, why string) {
 		}
 	}
 	return h, respIdx, ""
+}
+
+// isErrOfCall: v is the error the call returned - the call's value itself, or
+// the error component of its result tuple (`n, err := rw.writeFrame(r)`).
+func isErrOfCall(v ssa.Value, call ssa.Value) bool {
+	v = an.Strip(v)
+	if v == call {
+		return true
+	}
+	ex, ok := v.(*ssa.Extract)
+	return ok && ex.Tuple == call && isErrorType(ex.Type())
 }
 
 // recvOf / respOf: the ResponseWriter and the Response as the frame emitter
